@@ -367,6 +367,29 @@ def _phases_for(g, copies, counts, rng, n_frag):
                 rec[p] = "_"
         if len(rec) > 1:
             phases[f"f{f}"] = rec
+    # fragments of complete copies that straddle the break point of a fused copy: exactly one of their sites lies in
+    # the part the fused allele keeps (such a fragment must not be explained away by the fused copy)
+    fused = [c for c in copies if g.alleles[c[0]].cn_config != "1"]
+    full = [c for c in copies if g.alleles[c[0]].cn_config == "1"]
+    if fused and full:
+        fm = fused[0][0]
+        kept = [p for p in sites if g.has_coverage(fm, p)]
+        lost = [p for p in sites if not g.has_coverage(fm, p)]
+        if kept and lost:
+            for f in range(max(2, n_frag // 3)):
+                c = rng.choice(full)
+                vs = tables.allele_variants(g, c[0], c[1])
+                if len(c) > 2:
+                    vs = (vs | set(c[2])) - set(c[3])
+                k_ = rng.choice(kept)
+                span = sorted(set([k_] + rng.sample(lost, min(len(lost), rng.choice([1, 2])))))
+                rec = {}
+                for p in span:
+                    here = [m for m in vs if m.pos == p]
+                    non_ins = [m for m in here if not m.op.startswith("ins")]
+                    rec[p] = (non_ins[0].op if non_ins else (here[0].op if here else "_"))
+                if len(rec) > 1:
+                    phases[f"s{f}"] = rec
     return phases
 
 
